@@ -27,6 +27,9 @@ def ends (a : Inst) : List Path := a.props.filterMap (fun p => if p.isRef then p
 /-- the namespaces named by the ends -/
 def endNss (a : Inst) : List Name := (ends a).filterMap (·.ns)
 
+/-- the instance has a reference property (it is an instance of an association class) -/
+def hasRef (a : Inst) : Bool := a.props.any (·.isRef)
+
 /-- equality of instance paths inside one instance store: class name (any case) and keybindings -/
 def pkEq (p q : Path) : Bool := ieq p.cls q.cls && p.key == q.key
 
@@ -157,5 +160,49 @@ def stepW (sv : Server) (op : WOp) : Server :=
   | .error _ => sv
 
 def runW (sv : Server) (ops : List WOp) : Server := ops.foldl stepW sv
+
+end Pywbem.Model.Assoc
+
+namespace Pywbem.Model.Assoc
+
+/-! ### the shadow-copy discipline and the request conditions as executable checks
+(the `Prop` versions `WInv`, `CreateOk`, `ModifyOk`, `HistOk` are in `Proofs/Lemmas/AssocWrite*.lean`;
+`disciplineB_iff` etc. prove that these decide them; the driver reports them for every write history of K) -/
+
+def disciplineB (r : Repo) : Bool :=
+  r.all (fun S => r.all (fun T => !ieq S.name T.name || S == T)) &&
+  r.all (fun S => S.insts.all (fun a => a.path.host.isNone &&
+      match a.path.ns with | some m => ieq m S.name | none => false)) &&
+  r.all (fun S => S.insts.all (fun a => S.insts.all (fun b => !pkEq a.path b.path || a == b))) &&
+  r.all (fun S => S.insts.all (fun a => (endNss a).isEmpty || inNss (endNss a) S.name)) &&
+  r.all (fun S => r.all (fun T => S.insts.all (fun a => T.insts.all (fun b =>
+      !(pkEq a.path b.path && hasRef a && (endNss a).isEmpty) || S == T)))) &&
+  r.all (fun S => S.insts.all (fun a => (endNss a).all (fun n =>
+      r.any (fun T => ieq T.name n && T.insts.any (fun a' => pkEq a'.path a.path))))) &&
+  r.all (fun S => r.all (fun T => S.insts.all (fun a => T.insts.all (fun b =>
+      !(pkEq a.path b.path && hasRef a) || (a.props == b.props && a.cls == b.cls)))))
+
+def createOkB (r : Repo) (ns : Name) (a : Inst) : Bool :=
+  ((endNss a).isEmpty || inNss (endNss a) ns) &&
+  r.all (fun S => S.insts.all (fun b => !pkEq b.path a.path))
+
+def modifyOkB (sv : Server) (ns : Name) (p : Path) (chg : List IProp) : Bool :=
+  match findNs sv.repo ns with
+  | none => true
+  | some S =>
+    match findInst S.insts (srcPath ns p) with
+    | none => true
+    | some orig =>
+      let m : Inst := { orig with props := mergeProps orig.props chg }
+      hasRef orig && ((endNss m).isEmpty || inNss (endNss m) ns)
+
+def reqOkB (sv : Server) : WOp → Bool
+  | .create ns a => createOkB sv.repo ns a
+  | .modify ns p chg => modifyOkB sv ns p chg
+  | .delete _ _ => true
+
+def histOkB : Server → List WOp → Bool
+  | _, [] => true
+  | sv, op :: ops => reqOkB sv op && histOkB (stepW sv op) ops
 
 end Pywbem.Model.Assoc
